@@ -370,6 +370,27 @@ def r10_ids_spelled_alike(ctx):
     R.check(w == r, "C06.R10", "sub-id-spelling:writer-reader-agree", "accept and unsubscribe use the subscription id in the same spelling (transformations: %s)" % (sorted(w) or "none"), "accept stores subscription ids transformed by %s but the unsubscribe callback looks them up transformed by %s: an id with (e.g.) upper-case letters is stored one way and looked up another, unsubscribe answers false for an active own subscription and its slot is never freed" % (sorted(w) or "nothing", sorted(r) or "nothing"), None)
 
 
+
+def r11_table_entry_always_has_an_owner(ctx):
+    """an entry of the subscriber table is removed by the SubscriptionGuard (dropped with the last sink clone) or by an
+    unsubscribe call. accept() therefore creates the entry and its guard together: from the insert no exit of accept (an
+    error return of a failed send, a suspension point where the future can be dropped) is reachable before the guard
+    exists. An entry inserted ahead of the fallible sends stays behind without an owner when accept fails or is cancelled -
+    unsubscribe then answers true for a subscription that never became active."""
+    F, R = ctx.F, ctx.R
+    acc = F.one(r"^jsonrpsee_core::server::subscription::PendingSubscriptionSink::accept::\{closure#0\}$")
+    R.fn(acc)
+    ins = [c for c in acc.calls_to(r"HashMap::<.*>::insert$") if c.ga and "subscription::SubscriptionKey" in c.ga[0]]
+    R.floor("C06.R11", len(ins), 1, "subscriber-table inserts in accept")
+    guards = {bi for bi, blk in enumerate(acc.blocks) for st in blk["st"] if st["s"] == "assign" and st["rv"]["k"] == "agg" and (st["rv"].get("adt") or "").endswith("subscription::SubscriptionGuard")}
+    if not guards:
+        raise AnchorLost("construction of SubscriptionGuard in accept")
+    leaves = {bi for bi, blk in enumerate(acc.blocks) if blk["term"] and blk["term"]["t"] in ("return", "yield", "coroutine_drop")}
+    for c in ins:
+        ok = c.bb in guards or flow.all_paths_pass(acc, c.bb, guards, leaves)
+        R.check(ok, "C06.R11", "accept:entry-and-guard-together", "the table entry is created together with the guard that removes it", "accept() inserts the subscription into the table and can then still fail or be suspended before the SubscriptionGuard exists (an error return / await lies between them): the entry is left without an owner, so unsubscribe answers true for a subscription that was never accepted and the entry is never removed", where(c))
+
+
 def rcfg_config_verbatim(ctx):
     """the configured `max_subscriptions_per_connection` reaches the ServerConfig unchanged (setter stores its argument, build()/Clone copy it)"""
     from .common import config_field_integrity
@@ -390,7 +411,7 @@ def rgen_generated_registrations(ctx):
     return c17.w_rules(ctx)
 
 
-LIB_RULES = [r1_permit_before_handler, r2_permit_flow, r3_unsubscribe_answer, r4_release_on_last_drop, r5_unsubscribe_needs_no_permit, r6_cap_provenance, r7_table_writers, r8_no_relock, r9_connection_ids_are_fresh, r10_ids_spelled_alike, rcfg_config_verbatim, rids_wire_ids_derive_both]
+LIB_RULES = [r1_permit_before_handler, r2_permit_flow, r3_unsubscribe_answer, r4_release_on_last_drop, r5_unsubscribe_needs_no_permit, r6_cap_provenance, r7_table_writers, r8_no_relock, r9_connection_ids_are_fresh, r10_ids_spelled_alike, r11_table_entry_always_has_an_owner, rcfg_config_verbatim, rids_wire_ids_derive_both]
 CONFIGS_QUICK = ["libs-all", "corpus"]
 CONFIGS_THOROUGH = ["libs-all", "facade-full", "corpus"]
 
